@@ -650,6 +650,13 @@ fn get_file_secret_diff<'a>(
         if path.is_some() {
             deleted.push(old_secret);
         }
+    } else if let Secret::File {
+        content: FileContent::External { .. },
+        ..
+    } = old_secret
+    {
+        // The new secret no longer refers to the external file
+        deleted.push(old_secret);
     }
 
     // Find attachments that are unchanged
